@@ -193,6 +193,13 @@ def sany(path):
 # Harness build / run
 # --------------------------------------------------------------------------------------------
 
+def alt_tag(path):
+    """Alternate checkouts (VERIF_REPO) get their own cargo target directories: cargo's artefact names are
+    workspace-relative, so two checkouts sharing one directory can leave each other's binaries behind."""
+    import hashlib
+    return hashlib.sha1(os.path.abspath(path).encode()).hexdigest()[:10]
+
+
 def cargo_env():
     e = dict(os.environ)
     e["CARGO_NET_OFFLINE"] = "true"
@@ -215,7 +222,7 @@ def build_harness(bins=None, tokio=False, jobs=None):
             # touching /repo; cargo's `paths` override replaces the path dependencies by name
             crates = ["humphrey", "humphrey-ws", "humphrey-json", "humphrey-json-derive", "humphrey-auth", "humphrey-server"]
             paths = ",".join('"%s"' % os.path.join(os.path.abspath(alt), c) for c in crates)
-            target = os.path.join(WORK, "target-alt" + ("-tokio" if tokio else ""))
+            target = os.path.join(WORK, "target-alt-" + alt_tag(alt) + ("-tokio" if tokio else ""))
             cmd += ["--config", "paths=[%s]" % paths, "--target-dir", target]
         if bins:
             for b in bins:
